@@ -23,7 +23,9 @@ def declared_fields(I, ty):
     extra = set(getattr(ty, "extra_fields", ()))
     bad = names - initf - extra
     if bad:
-        raise EngineError("shape of %s declares fields not assigned in any __init__: %s" % (cls.key, sorted(bad)))
+        # (on the unchanged tree this is a sidecar error and shows up as a permanently undecided check; on a changed tree it means the code no
+        # longer has an attribute the contract speaks about: not covered)
+        raise Unsupported("the contract's shape of %s declares attributes that no __init__ assigns: %s - the contract does not cover this code" % (cls.key, sorted(bad)))
     return names | initf
 
 
